@@ -35,6 +35,21 @@ def generate(reg, units, lemmas, repo, scope=None, strmode="opaque", only=None, 
     """Returns (engine, list of UnitResult with .obls = [Obl]).  Errors are recorded per unit."""
     eng = Engine(reg, repo, scope=scope, strmode=strmode)
     results = []
+    # contract-only lemmas first: their text must not depend on what the execution of the (possibly changed) code adds to the axiom list
+    for lm in lemmas:
+        ur = UnitResult("lemma::" + lm["name"])
+        results.append(ur)
+        if only and ur.name not in only:
+            continue
+        n0, c0 = len(eng.obls), len(eng.covers)
+        try:
+            eng.verify_lemma(lm["name"], lm["decls"], lm.get("hyps", []), lm["goals"], lm.get("module"))
+            ur.info = dict(file="<lemma>", qualname=lm["name"], lines=[0, 0], sha1="", decorators=[], paths=1)
+        except (OutsideSubset, SourceError) as e:
+            ur.error = "%s: %s" % (type(e).__name__, e)
+        ur.obls = eng.obls[n0:]
+        ur.covers = eng.covers[c0:]
+        ur.scope_constraints = list(CTX.scope_constraints)
     for key in units:
         c = reg.contracts.get(key)
         ur = UnitResult("%s::%s" % key)
@@ -55,20 +70,6 @@ def generate(reg, units, lemmas, repo, scope=None, strmode="opaque", only=None, 
         ur.obls = eng.obls[n0:]
         ur.covers = eng.covers[c0:]
         ur.notes = sorted(set(eng.notes))
-        ur.scope_constraints = list(CTX.scope_constraints)
-    for lm in lemmas:
-        ur = UnitResult("lemma::" + lm["name"])
-        results.append(ur)
-        if only and ur.name not in only:
-            continue
-        n0, c0 = len(eng.obls), len(eng.covers)
-        try:
-            eng.verify_lemma(lm["name"], lm["decls"], lm.get("hyps", []), lm["goals"], lm.get("module"))
-            ur.info = dict(file="<lemma>", qualname=lm["name"], lines=[0, 0], sha1="", decorators=[], paths=1)
-        except (OutsideSubset, SourceError) as e:
-            ur.error = "%s: %s" % (type(e).__name__, e)
-        ur.obls = eng.obls[n0:]
-        ur.covers = eng.covers[c0:]
         ur.scope_constraints = list(CTX.scope_constraints)
     for over_key, iface_key in refinements:
         ur = UnitResult("refines::%s<=%s" % (over_key[1], ".".join(iface_key)))
